@@ -859,3 +859,180 @@ package engine
 //@           isOp(vm.operators[local(names, []Atom)[len(local(names, []Atom)) - 1]][cls(local(spec, operatorSpecifier))], local(p, Integer), local(spec, operatorSpecifier), local(names, []Atom)[len(local(names, []Atom)) - 1]),
 //@           emptyOp(vm.operators[local(names, []Atom)[len(local(names, []Atom)) - 1]][cls(local(spec, operatorSpecifier))]))
 //@   onk[other-classes-untouched] forall n Atom, c operatorClass :: c != cls(local(spec, operatorSpecifier)) ==> vm.operators[n][c] == old(vm.operators[n][c])
+
+//@ ---------------------------------------------------------------- streams (C19)
+
+//@ -- the buffered reader underneath (transcribed from $GOROOT/src/bufio/bufio.go): ghost fields
+//@ --   consumed  bytes handed out so far
+//@ --   lastRune  size of the rune delivered by the last operation if that was a successful ReadRune, else -1
+//@ --   lastByte  1 if a byte is remembered for UnreadByte, else 0 (a FAILED ReadByte keeps it: bufio.go ReadByte)
+//@ extern (*bufio.Reader).ReadRune
+//@   modifies gf(consumed, b), gf(lastRune, b), gf(lastByte, b)
+//@   ensures err == nil ==> 1 <= size && size <= 4 && gf(consumed, b) == old(gf(consumed, b)) + size && gf(lastRune, b) == size && gf(lastByte, b) == 1
+//@   ensures err != nil ==> size == 0 && gf(consumed, b) == old(gf(consumed, b)) && gf(lastRune, b) == -1 && gf(lastByte, b) == old(gf(lastByte, b))
+//@   ensures r >= 0
+//@ extern (*bufio.Reader).UnreadRune
+//@   modifies gf(consumed, b), gf(lastRune, b), gf(lastByte, b)
+//@   ensures (result == nil) <==> old(gf(lastRune, b)) >= 0
+//@   ensures result == nil ==> gf(consumed, b) == old(gf(consumed, b)) - old(gf(lastRune, b)) && gf(lastRune, b) == -1 && gf(lastByte, b) == 0
+//@   ensures result != nil ==> gf(consumed, b) == old(gf(consumed, b)) && gf(lastRune, b) == old(gf(lastRune, b)) && gf(lastByte, b) == old(gf(lastByte, b))
+//@ extern (*bufio.Reader).ReadByte
+//@   modifies gf(consumed, b), gf(lastRune, b), gf(lastByte, b)
+//@   ensures gf(lastRune, b) == -1
+//@   ensures result1 == nil ==> gf(consumed, b) == old(gf(consumed, b)) + 1 && gf(lastByte, b) == 1 && gf(consumed, b) >= 1
+//@   ensures result1 != nil ==> gf(consumed, b) == old(gf(consumed, b)) && gf(lastByte, b) == old(gf(lastByte, b))
+//@ extern (*bufio.Reader).UnreadByte
+//@   modifies gf(consumed, b), gf(lastRune, b), gf(lastByte, b)
+//@   ensures result == nil ==> old(gf(lastByte, b)) == 1 && gf(consumed, b) == old(gf(consumed, b)) - 1 && gf(lastByte, b) == 0 && gf(lastRune, b) == -1
+//@   ensures result != nil ==> gf(consumed, b) == old(gf(consumed, b)) && gf(lastRune, b) == old(gf(lastRune, b)) && gf(lastByte, b) == old(gf(lastByte, b))
+//@   ensures old(gf(lastByte, b)) == 1 && old(gf(consumed, b)) > 0 ==> result == nil
+//@ extern (*bufio.Reader).Buffered
+//@   pure
+//@ extern errors.Is
+//@   pure
+//@   ensures err == nil && target != nil ==> !result
+
+//@ axiom[io.EOF-is-an-error-value] io.EOF != nil
+
+//@ func Atom.String
+//@   trusted
+//@   modifies nothing
+
+//@ func stream
+//@   trusted
+//@   modifies nothing
+//@   ensures err == nil ==> result != nil
+
+//@ type bufReader invariant[all-or-nothing] (self.Reader == nil) == (self.er == nil)
+//@ type streamType invariant[valid] self == 0 || self == 1
+//@ type endOfStream invariant[valid] self <= 2
+//@ type eofAction invariant[valid] self == 0 || self == 1 || self == 2
+
+//@ func newBufReader
+//@   trusted
+//@   modifies nothing
+//@   ensures result.Reader != nil && fresh(result.Reader) && result.er != nil
+//@   ensures gf(consumed, result.Reader) == 0 && gf(lastRune, result.Reader) == -1 && gf(lastByte, result.Reader) == 0
+
+//@ func bufReader.ReadErr
+//@   trusted
+//@   modifies nothing
+
+//@ func fileSize
+//@   trusted
+//@   modifies nothing
+
+//@ func (*Stream).reset
+//@   property C19
+//@   requires s != nil
+//@   modifies s.buf, s.endOfStream
+//@   ensures[fresh-reader] old(s.mode) == 0 ==> s.buf.Reader != nil && s.endOfStream == 0 && gf(consumed, s.buf.Reader) == 0 && gf(lastRune, s.buf.Reader) == -1 && gf(lastByte, s.buf.Reader) == 0
+//@   ensures[only-input-streams] old(s.mode) != 0 ==> s.buf == old(s.buf) && s.endOfStream == old(s.endOfStream)
+
+//@ func (*Stream).initRead
+//@   property C19
+//@   requires s != nil
+//@   modifies s.buf, s.endOfStream
+//@   ensures[ready] result == nil ==> s.mode == 0 && s.buf.Reader != nil
+//@   ensures[succeeds-on-an-open-input] old(s.mode) == 0 && old(s.endOfStream) != 2 ==> result == nil
+//@   ensures[keeps-reader] result == nil && old(s.buf.Reader) != nil && old(s.endOfStream) != 2 ==> s.buf == old(s.buf) && s.endOfStream == old(s.endOfStream)
+//@   ensures[error-changes-nothing] result != nil ==> s.endOfStream == old(s.endOfStream) && (old(s.mode) != 0 ==> s.buf == old(s.buf))
+
+//@ func (*Stream).checkEOS
+//@   property C19
+//@   requires s != nil && s.buf.Reader != nil
+//@   modifies s.endOfStream
+//@   ensures[not-past-without-error] err == nil ==> s.endOfStream != 2
+
+//@ func (*Stream).ReadRune
+//@   property C19
+//@   requires s != nil
+//@   modifies s.buf, s.endOfStream, s.position, s.lastRuneSize, class ghost_consumed, class ghost_lastRune, class ghost_lastByte
+//@   ensures[position-advances-by-size] s.position == wrap64(old(s.position) + size)
+//@   ensures[size-is-what-was-consumed] err == nil && s.buf == old(s.buf) ==> gf(consumed, s.buf.Reader) == old(gf(consumed, s.buf.Reader)) + size
+//@   ensures[can-be-unread] err == nil ==> s.lastRuneSize == size && gf(lastRune, s.buf.Reader) == size && s.endOfStream != 2 && s.mode == 0 && s.streamType == 0 && s.buf.Reader != nil
+//@   ensures[rune-is-non-negative] r >= 0
+//@   ensures[wrong-type-is-refused] old(s.streamType) != 0 || old(s.mode) != 0 ==> err != nil && s.position == old(s.position)
+//@   ensures[size-range] 0 <= size && size <= 4 && (err == nil ==> 1 <= size) && (err != nil ==> size == 0)
+
+//@ func (*Stream).UnreadRune
+//@   property C19
+//@   requires s != nil
+//@   modifies s.buf, s.endOfStream, s.position, s.lastRuneSize, class ghost_consumed, class ghost_lastRune, class ghost_lastByte
+//@   ensures[moves-back-by-the-rune] result == nil ==> s.position == wrap64(old(s.position) - old(s.lastRuneSize)) && s.endOfStream == 0
+//@   ensures[failure-keeps-the-cursor] result != nil ==> s.position == old(s.position)
+//@   ensures[wrong-type-is-refused] old(s.streamType) != 0 || old(s.mode) != 0 ==> result != nil && s.position == old(s.position)
+//@   ensures[succeeds-after-a-read] old(s.mode) == 0 && old(s.streamType) == 0 && old(s.buf.Reader) != nil && old(s.endOfStream) != 2 && old(gf(lastRune, s.buf.Reader)) >= 0 ==> result == nil
+
+//@ func (*Stream).ReadByte
+//@   property C19
+//@   requires s != nil
+//@   modifies s.buf, s.endOfStream, s.position, class ghost_consumed, class ghost_lastRune, class ghost_lastByte
+//@   ensures[wrong-type-is-refused] old(s.streamType) != 1 || old(s.mode) != 0 ==> result1 != nil && s.position == old(s.position)
+//@   ensures[position-advances-by-one] result1 == nil ==> s.position == wrap64(old(s.position) + 1)
+//@   ensures[failure-keeps-the-cursor] result1 != nil ==> s.position == old(s.position)
+//@   ensures[can-be-unread] result1 == nil ==> gf(lastByte, s.buf.Reader) == 1 && gf(consumed, s.buf.Reader) > 0 && s.endOfStream != 2 && s.mode == 0 && s.streamType == 1 && s.buf.Reader != nil
+
+//@ func (*Stream).UnreadByte
+//@   property C19
+//@   requires s != nil
+//@   modifies s.buf, s.endOfStream, s.position, class ghost_consumed, class ghost_lastRune, class ghost_lastByte
+//@   ensures[moves-back-by-one] result == nil ==> s.position == wrap64(old(s.position) - 1) && s.endOfStream == 0
+//@   ensures[failure-keeps-the-cursor] result != nil ==> s.position == old(s.position)
+//@   ensures[wrong-type-is-refused] old(s.streamType) != 1 || old(s.mode) != 0 ==> result != nil && s.position == old(s.position)
+//@   ensures[succeeds-after-a-read] old(s.mode) == 0 && old(s.streamType) == 1 && old(s.buf.Reader) != nil && old(s.endOfStream) != 2 && old(gf(lastByte, s.buf.Reader)) == 1 && old(gf(consumed, s.buf.Reader)) > 0 ==> result == nil
+
+//@ func PeekChar
+//@   property C19
+//@   requires vm != nil
+//@   nosafety
+//@   bind s, serr = stream#1
+//@   onk[cursor-unchanged] s.position == old(s.position)
+
+//@ func PeekByte
+//@   property C19
+//@   requires vm != nil
+//@   nosafety
+//@   bind s, serr = stream#1
+//@   onk[cursor-unchanged] s.position == old(s.position)
+
+//@ func ReadTerm
+//@   property C19
+//@   requires vm != nil
+//@   nosafety
+
+//@ func GetChar
+//@   property C19
+//@   requires vm != nil
+//@   nosafety
+//@   bind s, serr = stream#1
+//@   bind r, size, rerr = (*Stream).ReadRune#1
+//@   onk[consumes-exactly-the-rune-delivered] called(r) && s.position == wrap64(old(s.position) + size) && (rerr == nil ==> size >= 1) && (rerr != nil ==> size == 0)
+//@   at-call Unify requires[delivers-the-rune-read] rerr == nil ==> a2 is Atom && (a2 as Atom) == r
+
+//@ func GetByte
+//@   property C19
+//@   requires vm != nil
+//@   nosafety
+//@   bind s, serr = stream#1
+//@   bind b, rerr = (*Stream).ReadByte#1
+//@   onk[consumes-exactly-one-byte] called(b) && (rerr == nil ==> s.position == wrap64(old(s.position) + 1)) && (rerr != nil ==> s.position == old(s.position))
+//@   at-call Unify requires[delivers-the-byte-read] rerr == nil ==> a2 is Integer && (a2 as Integer) == b
+
+//@ extern io.Writer.Write
+//@   pure
+//@   ensures 0 <= n && n <= len(p)
+
+//@ func textWriter.Write
+//@   property C19
+//@   requires t.stream != nil
+//@   modifies t.stream.position
+//@   ensures[position-counts-bytes-written] t.stream.position == wrap64(old(t.stream.position) + result0)
+//@   at-call io.Writer.Write requires[forwards-unchanged-in-one-call] a0 == t.stream.sink && a1 == p
+
+//@ func binaryWriter.Write
+//@   property C19
+//@   requires b.stream != nil
+//@   modifies b.stream.position
+//@   ensures[position-counts-bytes-written] b.stream.position == wrap64(old(b.stream.position) + result0)
+//@   at-call io.Writer.Write requires[forwards-unchanged-in-one-call] a0 == b.stream.sink && a1 == p
